@@ -459,7 +459,11 @@ def run(prog: Program, chk: Check):
 
     U = chk.rule("C04-U", "after automatic padding the members of a definition have pairwise distinct names", 10,
                  "duplicate member names make the four outputs disagree (C: compile error, Python: a member lost and sizes shifted, JS: a member lost)")
-    ca_, runs_ = padded_member_names(prog)
+    try:
+        ca_, runs_ = padded_member_names(prog)
+    except AnalysisError as e_:
+        chk.defer_error(f"C04-U could not interpret check_alignment: {e_}")  # must not hide what the other rules establish
+        ca_, runs_ = None, []
     for seq_, raised_, names_ in runs_:
         dup_ = sorted({n_ for n_ in names_ if names_.count(n_) > 1})
         tag_ = "+".join(f"a{k_[1]}" for k_ in seq_)
